@@ -16,7 +16,7 @@ func init() {
 		Title:    "Accelerated scans equal full scans",
 		Packages: []string{corePkg, localEPPkg},
 		Explanation: "(R1, reuse keys — truth tables) scanner.file's cache-match flag is exactly cacheHit ∧ type-bits equal ∧ ModificationTime.Equal(cached) at full precision ∧ Size equal ∧ FileID equal, and the entry-reuse flag adds full Mode equality; the digest is reused only under the first flag (C12.R5) and the cache entry only under the second; " +
-			"(R2, baseline reuse) a baseline subtree is stored into the new snapshot only where its content path was looked up in dirtyPaths and found clean (the dirty flag may be forced to true, never to false); the recursive scan of a dirty child receives that child's own baseline (baseline.Contents[name], nil unless a directory), never the parent's; a reused file without a cache entry is an error; " +
+			"(R2, baseline reuse) a baseline subtree is stored into the new snapshot only where its content path was looked up in dirtyPaths and found clean (the dirty flag may be forced to true, never to false); the recursive scan of a dirty child receives that child's own baseline (baseline.Contents[name], nil unless a directory), never the parent's; a reused file without a cache entry is an error; scanner.directory passes its baseline to no other function (that reuse site is the only door for baseline content); " +
 			"(R3, dirty closure) Scan marks every recheck path and each of its ancestors: the loop stores dirtyPaths[path]=true before testing path==\"\" and steps with fastpath.Dir; " +
 			"(R4) the whole-baseline shortcut returns the baseline only under baseline≠nil (after invalidation against root kind and probed behaviours) ∧ len(recheckPaths)==0; " +
 			"(R5) the endpoint resets recheckPaths only on the success edge of the accelerated scan it passed them to, and passes its own snapshot/recheckPaths/cache/ignoreCache to core.Scan; full scans pass nil baseline and nil recheck paths. " +
@@ -199,6 +199,23 @@ func runC13(c *eng.Ctx) {
 		}
 	}
 	c.Check("R2", "reused-file-needs-cache-entry", dir.Pos(), okMissing, "reusing a baseline file that has no cache entry fails the scan")
+	// the reuse site above is the ONLY door through which baseline content
+	// enters the new snapshot: scanner.directory hands its baseline to no other
+	// function (a helper that swaps freshly scanned entries for baseline ones
+	// would bypass the clean-path test)
+	if len(dir.Params) > 5 {
+		var leaks []string
+		for _, ref := range *dir.Params[5].Referrers() {
+			if call, ok := ref.(ssa.CallInstruction); ok {
+				for _, a := range call.Common().Args {
+					if a == ssa.Value(dir.Params[5]) {
+						leaks = append(leaks, eng.CalleeName(call))
+					}
+				}
+			}
+		}
+		c.Check("R2", "baseline-read-only-at-the-reuse-site", dir.Pos(), len(leaks) == 0, "the parent's baseline is not passed to any other function from scanner.directory", strings.Join(leaks, ", "))
+	}
 	c.Floor("R2", 5)
 
 	// R3: dirty closure in Scan.
